@@ -139,7 +139,7 @@ P["C14"] = {
     "kani": [],
     "explanation": "Every clause of the statement is a postcondition over the set of free pages (free_set = {p | st().cov(0,p)}) of the REAL bodies of bitmap.rs, buddy_allocator.rs, region.rs and allocate_helper_retry, extracted from /repo on every run and verified by Verus for all sizes, orders and states: blocks handed out lie inside the region and were free (alloc/alloc_inner, and alloc_lowest with its allocate-compare-free-split loops), refusal only when nothing of that order or larger is free (with lemma_bridge: no aligned free block exists), free makes exactly the block's pages free and merges with free buddies (I2), record_alloc marks exactly the block or refuses leaving the state unchanged, I1 (no page free at two orders) and I2 (buddies always merged) are established by new() and preserved; the region tracker never reports full a region holding a suitable free block (TRK) - established by Allocators::new, preserved by allocate_helper_retry.",
     "not_decided": "the statements of TransactionalMemory::free_helper outside the extracted fragment (mutex, debug bookkeeping, cache invalidation); serialisation round trip beyond the bounded native check C14-X-ser (to_vec/from_bytes are external_body for Verus); the bodies of the resize family and of highest_free_order (see assumptions); minimality of alloc_lowest's result (its contract is alloc's: the returned block was free, exactly it was removed)",
-    "assumptions": ["BuddyAllocator::resize, BuddyAllocator::highest_free_order, BtreeBitmap::resize and RegionTracker::resize carry ASSUMED contracts (external_body: iterator adapters / iter_mut loops Verus cannot read); Allocators::resize_to is VERIFIED against them: it preserves wf and TRK, gives every region the size the new layout says, builds new regions for the capacity of a full region, and leaves unchanged regions untouched"],
+    "assumptions": ["BuddyAllocator::resize and BuddyAllocator::highest_free_order carry ASSUMED contracts (external_body: an iterator-adapter chain, and a body that assigns self.len last so that the shape invariant does not hold at its inner calls); bounded native checks C14-X-resize / C14-X-hfo run the real bodies against the assumed contracts. BtreeBitmap::resize and RegionTracker::resize are VERIFIED (their iter_mut loops are turned into index loops by extraction rule R14). Allocators::resize_to is VERIFIED against these contracts: it preserves wf and TRK, gives every region the size the new layout says, builds new regions for the capacity of a full region, and leaves unchanged regions untouched"],
 }
 P["C20"] = {
     "level": "proof",
